@@ -145,6 +145,11 @@ def fmod(a, b):
 
 # ----------------------------------------------------------------------------- ropes
 
+class SymVal:
+    """marker base class of symbolic wrapper values"""
+    __slots__ = ()
+
+
 class FactSink:
     """Where definitional facts about fresh variables go (installed by the engine)."""
     current = None
@@ -377,6 +382,37 @@ class Rope:
                 return True
             return any(walk(c, seen) for c in e.children())
         return any(is_sym(v) and walk(v, set()) for v, _, _ in self.segs)
+
+
+class OBytes(SymVal):
+    """opaque bytes of symbolic length: only len(), equality, hashing and hex() are understood"""
+    __slots__ = ("val", "len")
+
+    def __init__(self, val, length):
+        self.val, self.len = val, length
+
+    @staticmethod
+    def sym(name):
+        v, n = z3.Int(name + "_val"), z3.Int(name + "_len")
+        sink().add(z3.And(n >= 0, v >= 0))
+        return OBytes(v, n)
+
+    def sym_len(self, ctx=None):
+        return self.len
+
+    def sym_eq(self, other):
+        if isinstance(other, OBytes):
+            return land(eq(self.len, other.len), eq(self.val, other.val))
+        if isinstance(other, (Rope, bytes, bytearray)):
+            r = as_rope(other)
+            return land(eq(self.len, len(r)), eq(self.val, r.be()))
+        return False
+
+    def sym_type(self):
+        return bytes
+
+    def __repr__(self):
+        return f"OBytes({self.val},{self.len})"
 
 
 def as_rope(x):
